@@ -29,7 +29,7 @@ S3 = math.sqrt(3.0)
 DEVS = ["RectangleContainmentIgnoresRotation", "BorderPointTwoNearestVertices", "RectanglePosSetterKeepsCorners",
         "LayoutSkipsCentring", "Sec3SetPosKeepsSectors", "Sec3SetRadiusKeepsCentres"]
 INVS = ["TypeOK", "VertexLaws", "ContainmentAgrees", "ContainmentLaws", "ZAgreesWithQ", "BorderAgrees", "BorderLaws",
-        "LayoutLaws", "Sec3NoOverlap", "DistLaws", "WrapLaws", "MutFresh"]
+        "LayoutLaws", "ClusterRadiusLaws", "Sec3NoOverlap", "DistLaws", "WrapLaws", "MutFresh"]
 ACTIONS = ["Contain", "Border", "Layout", "DistMat", "Wrap", "MutNew", "MutSetPos", "MutSetRot", "MutSetRad",
            "Place", "PlaceCl", "PProc"]
 F_RECT = "RectangleContainmentIgnoresRotation"
@@ -413,6 +413,12 @@ def rc_layout(e, seed):
             probs.append(bad(f"{sig}: vertices of the first/last cell differ (cells not congruent / wrongly rotated)"))
         if not close(C.pos, pc(cl["pos"])) or C.rotation != rot:
             probs.append(bad(f"{sig}: cluster reports pos {C.pos} rotation {C.rotation}"))
+        if not close(C.external_radius ** 2, qf(out["ext2"])):
+            probs.append(bad(f"{sig}: external_radius {C.external_radius} is not the radius of the smallest circle "
+                             f"around the cluster position that contains every cell ({math.sqrt(qf(out['ext2']))})"))
+        if cl["type"] != "square" and not close(C.radius ** 2, qf(out["crad2"])):
+            probs.append(bad(f"{sig}: cluster radius {C.radius} is not half the distance between neighbouring "
+                             f"clusters ({math.sqrt(qf(out['crad2']))})"))
     return (0 if probs else cl["n"] + 2), probs
 
 
